@@ -1,6 +1,9 @@
 import EgVerif.Proofs.ClusterMutex
 import EgVerif.Proofs.AdminAPI
 import EgVerif.Gen.FactsC18
+import EgVerif.Proofs.AdminAPIIR
+import EgVerif.Proofs.ClusterMutexIR
+import EgVerif.Proofs.ClusterMutexLease
 /-!
 # C18 — the cluster mutex is exclusive; admin mutations serialize with gap-free versions
 
@@ -424,5 +427,268 @@ example : ∃ s, Sys.run (Sys.init ⟨[], 7⟩)
 
 /-- Without the lock discipline a second `acquire` is simply not a step of the system. -/
 example : Sys.run (Sys.init ⟨[], 0⟩) [.acquire 0 (.delete "a"), .acquire 1 (.delete "a")] = none := by decide
+
+/-! ## Part 3 (extension "cluster"): lease expiry
+
+`stepX` = `step` + "the lease of session k expires and etcd deletes its key" at any moment. -/
+
+/-- **A lease that expires while its member holds the lock breaks exclusivity** (decided witness): member 0's
+goroutine is in the critical section, its lease expires, member 1 is granted the lock — both are inside.
+This is outside what `mutex.go` can prevent (the trusted-base entry "lease liveness"). -/
+theorem expiry_while_holding_breaks_exclusivity :
+    let c : Cfg := { obj := fun t => t, sess := fun o => o }
+    (∀ o1 o2, c.sess o1 = c.sess o2 → o1 = o2) ∧
+    ∃ s, runX c init ((acquireSeq 0).map .base ++ [.leaseExpire 0] ++ (acquireSeq 1).map .base) = some s ∧
+      s.pc 0 = .crit ∧ s.pc 1 = .crit ∧ s.queue = [1] :=
+  ⟨fun _ _ h => h, _, rfl, by decide, by decide, by decide⟩
+
+/-- **Exclusivity among live holders, for every history with arbitrary lease expiry**: at most one goroutine is
+in the critical section *with its member's key still present*; i.e. the only way two goroutines can be inside
+together is that all but one of them belong to members whose lease has expired since they acquired. -/
+theorem exclusive_among_live_holders {c : Cfg} (h1 : OneObjectPerSession c) (as : List ActX) {s : State}
+    (hr : runX c init as = some s) (t1 t2 : Nat) (a : s.pc t1 = .crit) (b : s.pc t2 = .crit)
+    (k1 : c.sess (c.obj t1) ∈ s.queue) (k2 : c.sess (c.obj t2) ∈ s.queue) : t1 = t2 := by
+  have inv := live_runX h1 as (live_init c) hr
+  have e1 := inv.liveHead t1 a k1
+  have e2 := inv.liveHead t2 b k2
+  rw [e1] at e2
+  exact inv.local1 t1 t2 (by simp [a]) (by simp [b]) (h1 _ _ (Option.some.inj e2))
+
+/-- … in particular exclusivity is restored as soon as the holders whose lease expired have left: whenever
+every goroutine inside has its member's key present, there is at most one. -/
+theorem exclusive_restored {c : Cfg} (h1 : OneObjectPerSession c) (as : List ActX) {s : State}
+    (hr : runX c init as = some s) (hall : ∀ t, s.pc t = .crit → c.sess (c.obj t) ∈ s.queue) (t1 t2 : Nat)
+    (a : s.pc t1 = .crit) (b : s.pc t2 = .crit) : t1 = t2 :=
+  exclusive_among_live_holders h1 as hr t1 t2 a b (hall t1 a) (hall t2 b)
+
+/-- **Full exclusivity for every history in which no holder's lease expires** (`SafeRun`: a lease may expire
+at any time while its member is idle, inside `Lock` waiting, failing or releasing — only not while one of its
+goroutines is in the critical section). Generalises `exclusive` (`exclusive_is_special_case`). -/
+theorem exclusive_unless_holder_expires {c : Cfg} (h1 : OneObjectPerSession c) (as : List ActX) {s : State}
+    (hr : runX c init as = some s) (hs : SafeRun c init as) (t1 t2 : Nat)
+    (a : s.pc t1 = .crit) (b : s.pc t2 = .crit) : t1 = t2 := by
+  obtain ⟨inv, ci⟩ := safe_runX h1 as (live_init c) (fun _ h => by simp [init] at h) hs hr
+  have e1 := inv.liveHead t1 a (ci t1 a)
+  have e2 := inv.liveHead t2 b (ci t2 b)
+  rw [e1] at e2
+  exact inv.local1 t1 t2 (by simp [a]) (by simp [b]) (h1 _ _ (Option.some.inj e2))
+
+/-- Histories without expiry are `run`; they are safe. -/
+theorem exclusive_is_special_case (c : Cfg) (as : List ClusterMutex.Act) :
+    runX c init (as.map .base) = run c init as ∧ SafeRun c init (as.map .base) :=
+  ⟨runX_base c as init, safeRun_base c as init⟩
+
+/-- Non-vacuity: member 1 waits behind member 0 and loses its lease while waiting (safe: it holds nothing); its
+`Lock` times out; member 0 releases; a goroutine of member 2 acquires. One holder at the end. -/
+example : ∃ s, runX cfg3 init ((acquireSeq 0).map .base ++ [.base (.localLock 1), .base (.etcdEnqueue 1), .leaseExpire 1,
+      .base (.etcdTimeout 1), .base (.localUnlockFail 1)] ++ (releaseSeq 0).map .base ++ (acquireSeq 2).map .base) = some s ∧
+    s.pc 2 = .crit ∧ s.pc 0 = .idle ∧ s.queue = [2] := ⟨_, rfl, by decide, by decide, by decide⟩
+example : SafeRun cfg3 init ((acquireSeq 0).map .base ++ [.base (.localLock 1), .base (.etcdEnqueue 1), .leaseExpire 1]) := by
+  simp only [SafeRun, acquireSeq, List.map, List.cons_append, List.nil_append]
+  refine ⟨?_, trivial⟩
+  intro t ht
+  by_cases h0 : t = 0
+  · subst h0; decide
+  · have : upd (upd (upd (upd (upd init.pc 0 PC.haveLocal) 0 PC.waiting) 0 PC.crit) 1 PC.haveLocal) 1 PC.waiting t ≠ .crit := by
+      by_cases h1 : t = 1
+      · subst h1; simp
+      · simp [upd, h0, h1, init]
+    exact absurd ht this
+/-- … while in the witness above the expiry hits the holder: that history is not safe. -/
+example : ¬ SafeRun cfg3 init ((acquireSeq 0).map .base ++ [.leaseExpire 0]) := by
+  simp only [SafeRun, acquireSeq, List.map, List.cons_append, List.nil_append]
+  intro h
+  exact h.1 0 (by decide) rfl
+
+/-! ## Part 3b (extension "cluster"): the judge's history check is sound for `runSeq` -/
+
+/-- **The judge's history check is sound for the sequential specification**: if `checkHistory apply` accepts an
+observed history, then the successful mutations, taken in the order of their `X-Config-Version`
+(a permutation of them), are a sequential execution `runSeq` of `apply` from the initial content that
+returns exactly the observed status codes and versions, the versions are `v+1 … v+k`, and the observed final
+listing and version are that execution's result. -/
+theorem checkHistory_sound (e0 : Etcd) (ops : List Op) (fs : Store) (fv : Nat)
+    (h : (checkHistory apply e0 ops fs fv).all = true) :
+    (sortByVer (ops.filter Op.success)).Perm (ops.filter Op.success) ∧
+    (runSeq e0 (reqsOf (sortByVer (ops.filter Op.success)))).2.map (fun r => (r.status, r.version)) =
+      (sortByVer (ops.filter Op.success)).map (fun o => (o.status, o.ver)) ∧
+    (sortByVer (ops.filter Op.success)).map (·.ver.getD 0) =
+      (List.range (sortByVer (ops.filter Op.success)).length).map (· + e0.version + 1) ∧
+    storeEq (runSeq e0 (reqsOf (sortByVer (ops.filter Op.success)))).1.store fs = true ∧
+    (runSeq e0 (reqsOf (sortByVer (ops.filter Op.success)))).1.version = fv := by
+  simp only [HistCheck.all, checkHistory, Bool.and_eq_true] at h
+  obtain ⟨⟨⟨⟨⟨⟨⟨_, hgap⟩, hen⟩, _⟩, _⟩, _⟩, hst⟩, hver⟩ := h
+  obtain ⟨i1, i2, _⟩ := replay_sound _ e0 hen
+  rw [i2] at hst hver
+  exact ⟨sortByVer_perm _, i1, by simpa using hgap, by simpa using hst, by simpa using hver⟩
+
+/-- Non-vacuity: an accepted concurrent history — create a (201, v8) and, overlapping in real time, update a
+(200, v9) observed *before* the create's response was read, plus a rejected create (409) and an unlocked read. -/
+example : (checkHistory apply ⟨[], 7⟩
+    [⟨.mut (.update "a" ⟨"A", "p9"⟩), 200, some 9, 2, 3⟩, ⟨.mut (.create "a" oA), 201, some 8, 1, 4⟩,
+     ⟨.mut (.create "a" oB), 409, none, 5, 6⟩, ⟨.get "a" (some ⟨"A", "p9"⟩), 200, none, 5, 7⟩]
+    [("a", ⟨"A", "p9"⟩)] 9).all = true := by decide
+example : (checkHistory apply ⟨[], 7⟩ [⟨.mut (.create "a" oA), 201, some 9, 1, 2⟩] [("a", oA)] 9).all = false := by decide
+
+/-! ## Part 4 (extension "cluster"): the tie by translation
+
+`Gen/FactsC18IR.lean` is regenerated on every run from the current bodies of the Go functions by the go/ast →
+Lean translator (`harness/factextract/facts_c18_ir.go` + `irlib.go`; `defer`, the named result of `mutex.Lock`
+and `ClusterPanic` are desugared first). Each `…IR` is the hand-written model function on every input
+(proofs: `Proofs/AdminAPIIR.lean`, `Proofs/ClusterMutexIR.lean`), and the model functions compose to `apply` /
+`micro` / `step`, which the theorems above are about. -/
+
+theorem createObject_regenerated_from_source (e : Etcd) (sp : Spec) (rdErr : Bool) :
+    Gen.FactsC18IR.extractionFailed = false ∧ Gen.FactsC18IR.createObjectIR e sp rdErr = createObject e sp rdErr :=
+  ⟨by decide, AdminAPI.createObject_regenerated_from_source e sp rdErr⟩
+
+theorem updateObject_regenerated_from_source (e : Etcd) (sp : Spec) (rdErr : Bool) :
+    Gen.FactsC18IR.extractionFailed = false ∧ Gen.FactsC18IR.updateObjectIR e sp rdErr = updateObject e sp rdErr :=
+  ⟨by decide, AdminAPI.updateObject_regenerated_from_source e sp rdErr⟩
+
+theorem deleteObject_regenerated_from_source (e : Etcd) (name : String) :
+    Gen.FactsC18IR.extractionFailed = false ∧ Gen.FactsC18IR.deleteObjectIR e name = deleteObject e name :=
+  ⟨by decide, AdminAPI.deleteObject_regenerated_from_source e name⟩
+
+theorem upgradeConfigVersion_regenerated_from_source (e : Etcd) (w : RW) :
+    Gen.FactsC18IR.extractionFailed = false ∧ Gen.FactsC18IR.upgradeConfigVersionIR e w = upgradeConfigVersion e w :=
+  ⟨by decide, AdminAPI.upgradeConfigVersion_regenerated_from_source e w⟩
+
+theorem getVersion_regenerated_from_source (e : Etcd) (getErr : Bool) :
+    Gen.FactsC18IR.extractionFailed = false ∧ Gen.FactsC18IR.getVersionIR e getErr = getVersion e getErr :=
+  ⟨by decide, AdminAPI.getVersion_regenerated_from_source e getErr⟩
+
+theorem plusOneVersion_regenerated_from_source (e : Etcd) (getErr putErr : Bool) :
+    Gen.FactsC18IR.extractionFailed = false ∧
+      Gen.FactsC18IR.plusOneVersionIR e getErr putErr = plusOneVersion e getErr putErr :=
+  ⟨by decide, AdminAPI.plusOneVersion_regenerated_from_source e getErr putErr⟩
+
+theorem getObject_regenerated_from_source (e : Etcd) (name : String) (getErr : Bool) :
+    Gen.FactsC18IR.extractionFailed = false ∧ Gen.FactsC18IR.getObjectIR e name getErr = getObject e name getErr :=
+  ⟨by decide, AdminAPI.getObject_regenerated_from_source e name getErr⟩
+
+theorem putObject_regenerated_from_source (e : Etcd) (sp : Spec) (putErr : Bool) :
+    Gen.FactsC18IR.extractionFailed = false ∧ Gen.FactsC18IR.putObjectIR e sp putErr = putObject e sp putErr :=
+  ⟨by decide, AdminAPI.putObject_regenerated_from_source e sp putErr⟩
+
+theorem deleteObjectKey_regenerated_from_source (e : Etcd) (name : String) (delErr : Bool) :
+    Gen.FactsC18IR.extractionFailed = false ∧
+      Gen.FactsC18IR.deleteObjectKeyIR e name delErr = deleteObjectKey e name delErr :=
+  ⟨by decide, AdminAPI.deleteObjectKey_regenerated_from_source e name delErr⟩
+
+theorem serverLock_regenerated_from_source (gmErr lkErr : Bool) :
+    Gen.FactsC18IR.extractionFailed = false ∧ Gen.FactsC18IR.serverLockIR gmErr lkErr = serverLock gmErr lkErr :=
+  ⟨by decide, AdminAPI.serverLock_regenerated_from_source gmErr lkErr⟩
+
+theorem serverUnlock_regenerated_from_source (gmErr ulErr : Bool) :
+    Gen.FactsC18IR.extractionFailed = false ∧ Gen.FactsC18IR.serverUnlockIR gmErr ulErr = serverUnlock gmErr ulErr :=
+  ⟨by decide, AdminAPI.serverUnlock_regenerated_from_source gmErr ulErr⟩
+
+/-- `mutex.Lock`, including the order of its local and etcd operations (`MOut.trace`) and the cleanup
+`m.m.Unlock` + local unlock on error (commit a206e96). -/
+theorem lock_regenerated_from_source (tmo : Nat) (lockO : Ctx → LockOutcome) (delO : Ctx → Bool) (held key : Bool) :
+    Gen.FactsC18IR.extractionFailed = false ∧ Gen.FactsC18IR.lockIR tmo lockO delO held key = lockCall tmo lockO delO key :=
+  ⟨by decide, ClusterMutex.lock_regenerated_from_source tmo lockO delO held key⟩
+
+/-- `mutex.Unlock`: etcd unlock, then the local unlock. -/
+theorem unlock_regenerated_from_source (tmo : Nat) (lockO : Ctx → LockOutcome) (delO : Ctx → Bool) (held key : Bool) :
+    Gen.FactsC18IR.extractionFailed = false ∧ Gen.FactsC18IR.unlockIR tmo lockO delO held key = unlockCall tmo delO key :=
+  ⟨by decide, ClusterMutex.unlock_regenerated_from_source tmo lockO delO held key⟩
+
+/-- **The translated handlers are the atomic specification**: what `createObject` / `updateObject` /
+`deleteObject` (as regenerated from the source) do to etcd and answer is `apply` — the transition
+`handlers_atomic`, `versions_gap_free`, `conflict_unchanged`, `final_store_is_fold` are about — and is what the
+micro-step machine `exec` computes; the handler returns with the lock released (deferred `s.Unlock()` on every
+path) and made no etcd access outside `s.Lock()` … `s.Unlock()`. -/
+theorem translated_handlers_are_apply (e : Etcd) (n : String) (o : Obj) :
+    let c := Gen.FactsC18IR.createObjectIR e ⟨n, o⟩ false
+    let u := Gen.FactsC18IR.updateObjectIR e ⟨n, o⟩ false
+    let d := Gen.FactsC18IR.deleteObjectIR e n
+    (c.etcd, c.rw.resp) = apply e (.create n o) ∧ (u.etcd, u.rw.resp) = apply e (.update n o) ∧
+    (d.etcd, d.rw.resp) = apply e (.delete n) ∧
+    exec (.create n o) e = (c.etcd, c.rw.resp) ∧ exec (.update n o) e = (u.etcd, u.rw.resp) ∧
+    exec (.delete n) e = (d.etcd, d.rw.resp) ∧
+    c.locked = false ∧ u.locked = false ∧ d.locked = false ∧
+    c.unlockedAccess = false ∧ u.unlockedAccess = false ∧ d.unlockedAccess = false := by
+  simp only [AdminAPI.createObject_regenerated_from_source, AdminAPI.updateObject_regenerated_from_source,
+    AdminAPI.deleteObject_regenerated_from_source]
+  have hc := handle_is_apply e (.create n o)
+  have hu := handle_is_apply e (.update n o)
+  have hd := handle_is_apply e (.delete n)
+  have xc := handle_is_exec e (.create n o)
+  have xu := handle_is_exec e (.update n o)
+  have xd := handle_is_exec e (.delete n)
+  simp only [handle] at hc hu hd xc xu xd
+  refine ⟨?_, ?_, ?_, xc, xu, xd, hc.2.2.1, hu.2.2.1, hd.2.2.1, hc.2.2.2, hu.2.2.2, hd.2.2.2⟩
+  · rw [hc.1, hc.2.1]
+  · rw [hu.1, hu.2.1]
+  · rw [hd.1, hd.2.1]
+
+/-- A body that cannot be read is answered 400 before the lock is taken, nothing changes; an etcd error in any
+round trip (or a failing `Server.Lock`) is a panic (`none`), never a continuation with a half result; without
+errors the helpers are exactly the micro steps of `micro` (`_plusOneVersion` = read + 1, written and returned). -/
+theorem translated_helpers_are_micro (req : Req) (e : Etcd) (sp : Spec) (b : Bool) :
+    (Gen.FactsC18IR.createObjectIR e sp true).etcd = e ∧ (Gen.FactsC18IR.createObjectIR e sp true).rw.resp = ⟨400, none⟩ ∧
+    (Gen.FactsC18IR.updateObjectIR e sp true).etcd = e ∧ (Gen.FactsC18IR.updateObjectIR e sp true).rw.resp = ⟨400, none⟩ ∧
+    (Gen.FactsC18IR.getObjectIR e req.name false).map (fun x => (AdminAPI.PC.gotObj x, e)) = some (micro req .start e) ∧
+    (Gen.FactsC18IR.getVersionIR e false).map (fun v => (AdminAPI.PC.gotVer v, e)) = some (micro req .wrote e) ∧
+    (Gen.FactsC18IR.plusOneVersionIR e false false).map (fun p => (AdminAPI.PC.done ⟨okStatus req, some p.2⟩, p.1)) =
+      some (micro req (.gotVer e.version) e) ∧
+    Gen.FactsC18IR.getVersionIR e true = none ∧ Gen.FactsC18IR.plusOneVersionIR e true b = none ∧
+    Gen.FactsC18IR.plusOneVersionIR e b true = none ∧ Gen.FactsC18IR.getObjectIR e sp.name true = none ∧
+    Gen.FactsC18IR.putObjectIR e sp true = none ∧ Gen.FactsC18IR.deleteObjectKeyIR e sp.name true = none ∧
+    Gen.FactsC18IR.serverLockIR true b = none ∧ Gen.FactsC18IR.serverLockIR b true = none := by
+  simp only [AdminAPI.createObject_regenerated_from_source, AdminAPI.updateObject_regenerated_from_source,
+    AdminAPI.getObject_regenerated_from_source, AdminAPI.getVersion_regenerated_from_source,
+    AdminAPI.plusOneVersion_regenerated_from_source, AdminAPI.putObject_regenerated_from_source,
+    AdminAPI.deleteObjectKey_regenerated_from_source, AdminAPI.serverLock_regenerated_from_source]
+  have hb := bad_body_rejected e sp
+  have hm := helpers_are_micro req e
+  have he := helper_errors_panic e sp.name sp b
+  refine ⟨by rw [hb.1], by rw [hb.1]; rfl, by rw [hb.2], by rw [hb.2]; rfl, hm.1, hm.2.1, hm.2.2.1,
+    he.1, he.2.1, he.2.2.1, he.2.2.2.1, he.2.2.2.2.1, he.2.2.2.2.2.1, he.2.2.2.2.2.2.1, he.2.2.2.2.2.2.2⟩
+
+/-- **One call of the translated `mutex.Lock` is a schedule of the interleaving model** (`lockActs`: local
+lock, enqueue, then granted / timed out + local unlock / early error + local unlock; cleanup delete
+succeeding): local mutex, presence of the member's key and the thread's position after the schedule are what
+the translated function returns; its events are in the order local lock → etcd lock → (on error) etcd
+cleanup unlock → local unlock. So `exclusive`, `failed_acquire_leaves_free`, … are about the code's `Lock`. -/
+theorem translated_lock_is_schedule (c : Cfg) (s s' : State) (t tmo : Nat) (lockO : Ctx → LockOutcome) (delO : Ctx → Bool)
+    (held : Bool) (hd : delO (.timeout tmo 2) = true) (hnd : s.queue.Nodup)
+    (hrun : run c s (lockActs t (lockO (.timeout tmo 1))) = some s') :
+    let r := Gen.FactsC18IR.lockIR tmo lockO delO held (decide (c.sess (c.obj t) ∈ s.queue))
+    s'.held (c.obj t) = r.held ∧ decide (c.sess (c.obj t) ∈ s'.queue) = r.key ∧
+    s'.pc t = (if r.err then .idle else .crit) ∧
+    r.trace = (if r.err then [.localLock, .etcdLock (lockO (.timeout tmo 1)), .etcdUnlock true, .localUnlock]
+               else [.localLock, .etcdLock (lockO (.timeout tmo 1))]) := by
+  simp only [ClusterMutex.lock_regenerated_from_source]
+  have h := lockCall_is_schedule c s s' t tmo lockO delO hd hnd hrun
+  have ht := lockCall_trace tmo lockO delO (decide (c.sess (c.obj t) ∈ s.queue))
+  rw [hd] at ht
+  exact ⟨h.1, h.2.1, h.2.2, ht⟩
+
+/-- … and one call of the translated `mutex.Unlock` by the holder is `releaseSeq`: the etcd key is deleted
+first, the local mutex released second. -/
+theorem translated_unlock_is_schedule (c : Cfg) (s s' : State) (t tmo : Nat) (lockO : Ctx → LockOutcome)
+    (delO : Ctx → Bool) (held : Bool) (hd : delO (.timeout tmo 1) = true) (hnd : s.queue.Nodup)
+    (hrun : run c s (releaseSeq t) = some s') :
+    let r := Gen.FactsC18IR.unlockIR tmo lockO delO held (decide (c.sess (c.obj t) ∈ s.queue))
+    s'.held (c.obj t) = r.held ∧ decide (c.sess (c.obj t) ∈ s'.queue) = r.key ∧ r.err = false ∧ s'.pc t = .idle ∧
+    r.trace = [.etcdUnlock true, .localUnlock] := by
+  simp only [ClusterMutex.unlock_regenerated_from_source]
+  exact unlockCall_is_schedule c s s' t tmo delO hd hnd hrun
+
+/-- Non-vacuity: the schedules are enabled from a free lock for every outcome of the etcd call, and concrete
+values of the translated functions. -/
+example (o : LockOutcome) : ∃ s', run cfg3 init (lockActs 4 o) = some s' :=
+  lockActs_enabled cfg3 init 4 o rfl rfl rfl
+example : Gen.FactsC18IR.lockIR 5 (fun _ => .lostResponse) (fun _ => true) false false =
+    ⟨false, false, true, [.localLock, .etcdLock .lostResponse, .etcdUnlock true, .localUnlock]⟩ := by decide
+example : Gen.FactsC18IR.lockIR 5 (fun _ => .granted) (fun _ => true) false false =
+    ⟨true, true, false, [.localLock, .etcdLock .granted]⟩ := by decide
+example : (Gen.FactsC18IR.createObjectIR ⟨[], 7⟩ ⟨"a", oA⟩ false) =
+    ⟨⟨[("a", oA)], 8⟩, ⟨true, 201, some 8⟩, false, false⟩ := by decide
+example : (Gen.FactsC18IR.updateObjectIR ⟨[("a", oA)], 8⟩ ⟨"a", oB⟩ false).rw.resp = ⟨400, none⟩ := by decide
+example : (Gen.FactsC18IR.deleteObjectIR ⟨[("a", oA)], 8⟩ "a") = ⟨⟨[], 9⟩, ⟨false, 200, some 9⟩, false, false⟩ := by decide
 
 end EgVerif.C18
